@@ -206,6 +206,7 @@ type rig struct {
 	st      *isaacstates.States
 	box     *isaacstates.Ballotbox
 	pool    *isaacdatabase.TempPool
+	storage *leveldbstorage.Storage
 	bb      *isaacstates.DefaultBallotBroadcaster
 	mimic   func(base.Ballot)
 	handler *isaacstates.VerifBallotHandler
@@ -279,7 +280,11 @@ func (w bbWrap) Broadcast(bl base.Ballot) error {
 		Key:  g.keyOf(bl.Point(), isaac.IsSuffrageConfirmBallotFact(bl.SignFact().Fact())),
 		Fact: bl.SignFact().Fact().Hash().String(), Node: bl.SignFact().Node().String()})
 	g.mu.Unlock()
-	return g.bb.Broadcast(bl)
+	err := g.bb.Broadcast(bl)
+	if err != nil {
+		g.tot.add("broadcast_calls_returning_error", 1)
+	}
+	return err
 }
 
 // broadcastFunc of the real DefaultBallotBroadcaster: the network
@@ -373,7 +378,8 @@ func newRig(r *vlib.Run, tot *totals, idx int, nremotes int) (*rig, error) {
 	if err != nil {
 		return nil, err
 	}
-	pool, err := isaacdatabase.NewTempPool(leveldbstorage.NewMemStorage(), encs, enc, 0)
+	g.storage = leveldbstorage.NewMemStorage()
+	pool, err := isaacdatabase.NewTempPool(g.storage, encs, enc, 0)
 	if err != nil {
 		return nil, err
 	}
@@ -814,6 +820,166 @@ func (g *rig) runRound(ri int, spec roundSpec) {
 	}
 }
 
+// runFaultRound: the pool's storage refuses writes while the first local
+// ballot A for a point is made (mimic or handler path), then works again and a
+// different local ballot B for the same point is made, then re-broadcast.
+func (g *rig) runFaultRound(ri int) {
+	rng := g.r.Rand(34, g.idx, ri)
+	kind := "INIT"
+	stage := base.StageINIT
+	if rng.Intn(2) == 0 {
+		kind, stage = "ACCEPT", base.StageACCEPT
+	}
+	handlerFirst := rng.Intn(2) == 0
+	secondVia := []string{"mimic-direct", "mimic-box", "handler"}[rng.Intn(3)]
+	if handlerFirst && secondVia == "handler" {
+		secondVia = "mimic-box"
+	}
+	point := base.RawPoint(int64(1000+10*ri), 0)
+	key := g.keyOf(base.NewStagePoint(point, stage), false)
+	g.mu.Lock()
+	g.round = fmt.Sprintf("fault rig round %d kind=%s first=%v second=%s", ri, kind, map[bool]string{true: "handler", false: "mimic-direct"}[handlerFirst], secondVia)
+	startSeq := g.seq
+	started0 := g.started
+	g.mu.Unlock()
+
+	prevBlock, proposal := g.hash(rng), g.hash(rng)
+	var avp isaac.ACCEPTVoteproof
+	var ivp isaac.INITVoteproof
+	var err error
+	if kind == "INIT" {
+		avp, err = g.acceptVoteproof(point.PrevHeight(), g.hash(rng), prevBlock)
+	} else {
+		ivp, err = g.initVoteproof(point, prevBlock, proposal)
+	}
+	if err != nil {
+		g.r.Inconclusive("voteproof: " + err.Error())
+		return
+	}
+	mk := func(n base.LocalNode, h util.Hash) base.Ballot {
+		var bl base.Ballot
+		if kind == "INIT" {
+			sf := isaac.NewINITBallotSignFact(isaac.NewINITBallotFact(point, prevBlock, h, nil))
+			if err = sf.NodeSign(n.Privatekey(), g.networkID, n.Address()); err == nil {
+				bl = isaac.NewINITBallot(avp, sf, nil)
+			}
+		} else {
+			sf := isaac.NewACCEPTBallotSignFact(isaac.NewACCEPTBallotFact(point, proposal, h, nil))
+			if err = sf.NodeSign(n.Privatekey(), g.networkID, n.Address()); err == nil {
+				bl = isaac.NewACCEPTBallot(ivp, sf, nil)
+			}
+		}
+		if err == nil {
+			err = bl.IsValid(g.networkID)
+		}
+		return bl
+	}
+	blA := mk(g.remotes[0], g.hash(rng))
+	blB := mk(g.remotes[1%len(g.remotes)], g.hash(rng))
+	if err != nil {
+		g.r.Inconclusive("harness made an invalid ballot: " + err.Error())
+		return
+	}
+	handlerPrepare := func() {
+		var err error
+		if kind == "INIT" {
+			err = g.handler.PrepareNextBlockBallot(avp, g.suf, time.Nanosecond)
+		} else {
+			err = g.handler.PrepareACCEPTBallot(ivp, g.hash(rng), time.Nanosecond)
+		}
+		if err != nil {
+			g.tot.add("handler_prepare_errors", 1)
+		}
+	}
+	countEvents := func(kindOf, path string) int {
+		g.mu.Lock()
+		defer g.mu.Unlock()
+		n := 0
+		for _, e := range g.events {
+			if e.Seq > startSeq && e.Key == key && e.Kind == kindOf && (path == "" || e.Path == path) {
+				n++
+			}
+		}
+		return n
+	}
+	waitFor := func(d time.Duration, f func() bool) {
+		deadline := time.Now().Add(d)
+		for time.Now().Before(deadline) && !f() {
+			time.Sleep(time.Millisecond)
+		}
+	}
+
+	// first local ballot while every write of the pool's storage fails
+	leveldbstorage.VerifFaultArm(g.storage, 0)
+	if handlerFirst {
+		handlerPrepare()
+		// the broadcast timer tried at least once
+		waitFor(time.Millisecond*400, func() bool { return countEvents("broadcast-call", "") > 0 })
+	} else {
+		g.mimicAs("mimic-direct")(blA)
+	}
+	failed := 0
+	for _, e := range leveldbstorage.VerifFaultReset() {
+		if e.Failed {
+			failed++
+		}
+	}
+	g.tot.add("fault_writes_refused", failed)
+	if countEvents("wire", "") == 0 {
+		g.tot.add("fault_rounds_first_ballot_not_broadcast", 1)
+	}
+
+	// storage works again: a different local ballot for the same point
+	switch secondVia {
+	case "mimic-direct":
+		g.mimicAs("mimic-direct")(blB)
+	case "mimic-box":
+		if voted, _ := g.box.Vote(blB); voted {
+			waitFor(time.Second*20, func() bool {
+				g.mu.Lock()
+				defer g.mu.Unlock()
+				return g.started > started0 && g.inflight == 0
+			})
+		} else {
+			g.mimicAs("mimic-direct")(blB)
+		}
+	case "handler":
+		handlerPrepare()
+	}
+	if handlerFirst || secondVia == "handler" {
+		waitFor(time.Millisecond*400, func() bool { return countEvents("wire", "handler") >= 1 })
+	}
+	// re-broadcast of what the pool holds
+	w := bbWrap{g: g}
+	if bl, found, _ := w.Ballot(point, stage, false); found {
+		_ = w.Broadcast(bl)
+		g.tot.add("rebroadcasts_of_pooled_ballot", 1)
+	}
+	if handlerFirst || secondVia == "handler" {
+		_ = g.handler.StopTimers()
+	}
+	waitFor(time.Second*20, func() bool {
+		g.mu.Lock()
+		defer g.mu.Unlock()
+		return g.inflight == 0
+	})
+
+	g.mu.Lock()
+	defer g.mu.Unlock()
+	var order []string
+	for _, e := range g.events {
+		if e.Seq > startSeq && e.Key == key && (e.Kind == "check" || e.Kind == "wire") {
+			order = append(order, e.Kind[:1]+":"+e.Path)
+		}
+	}
+	g.tot.add("fault_rounds", 1)
+	g.r.SetAdd("interleavings_seen", "fault:"+strings.Join(order, ","))
+	g.r.Case(fmt.Sprintf("fault/%s/%v/%s/%s", kind, handlerFirst, secondVia, strings.Join(order, ",")))
+	if len(g.events) > 4000 {
+		g.events = append([]ev{}, g.events[len(g.events)-500:]...)
+	}
+}
+
 func genRound(rng *rand.Rand, height int64, nremotes int, state string) roundSpec {
 	s := roundSpec{Height: height, State: state}
 	s.Kind = "INIT"
@@ -844,7 +1010,7 @@ func genRound(rng *rand.Rand, height int64, nremotes int, state string) roundSpe
 	return s
 }
 
-func runRig(r *vlib.Run, tot *totals, idx, rounds int) {
+func runRig(r *vlib.Run, tot *totals, idx, rounds int, fault bool) {
 	rng := r.Rand(32, idx)
 	nremotes := 2 + rng.Intn(7)
 	g, err := newRig(r, tot, idx, nremotes)
@@ -897,6 +1063,15 @@ func runRig(r *vlib.Run, tot *totals, idx, rounds int) {
 	g.handler = h
 	defer h.Exit()
 
+	if fault {
+		for ri := 0; ri < rounds; ri++ {
+			if !r.WithWatchdog(time.Second*60, fmt.Sprintf("fault rig round %d", ri), func() { g.runFaultRound(ri) }) {
+				return
+			}
+		}
+		return
+	}
+
 	for ri := 0; ri < rounds; ri++ {
 		spec := genRound(r.Rand(33, idx, ri), int64(1000+10*ri), nremotes, string(state))
 		if idx == 0 && ri < 4 {
@@ -912,10 +1087,11 @@ func runRig(r *vlib.Run, tot *totals, idx, rounds int) {
 func TestC08(t *testing.T) {
 	r := vlib.Start(t, "C08", vlib.LevelExploration)
 	defer r.Finish()
-	r.SetRule("case = one round on a fresh stage point: 2-8 remote suffrage nodes deliver INIT, ACCEPT or suffrage-confirm ballots (1..n distinct facts) concurrently through Ballotbox.Vote or the mimic function, in 25% of rounds the real baseBallotHandler makes and timer-broadcasts the local ballot for the same point, in 30% pooled ballots are re-broadcast, 0-2 ballots for other points; a yield or 1-200us sleep follows every pool check; distinct = (kind, remotes, facts, handler, rebroadcast, state, overlap, observed order of checks and wire broadcasts); non-trivial = at least two distinct facts or the handler takes part")
+	r.SetRule("case = one round on a fresh stage point: 2-8 remote suffrage nodes deliver INIT, ACCEPT or suffrage-confirm ballots (1..n distinct facts) concurrently through Ballotbox.Vote or the mimic function, in 25% of rounds the real baseBallotHandler makes and timer-broadcasts the local ballot for the same point, in 30% pooled ballots are re-broadcast, 0-2 ballots for other points; a yield or 1-200us sleep follows every pool check; distinct = (kind, remotes, facts, handler, rebroadcast, state, overlap, observed order of checks and wire broadcasts); non-trivial = at least two distinct facts or the handler takes part; plus 40/400 fault rounds on one extra rig (storage refuses writes during the first local ballot of a point)")
 	r.Assume("every remote signer is in the sync sources and in the suffrage, consensus is allowed, the node is in Syncing or Broken (the preconditions of the mimic path)")
 	r.Assume("only ballots handed to the network function are judged; signing without broadcasting is not")
 	r.Assume("remote ballots pass Ballot.IsValid (checked by the harness for every generated ballot)")
+	r.Assume("fault phase (beyond the property's quantifier, which is schedules only): on one extra rig the pool's leveldb storage refuses every write (hook H3, leveldbstorage.VerifFaultArm) while the first local ballot for a point is made, then works again for a different second one and a re-broadcast; same oracle")
 
 	if raceEnabled {
 		// zerolog marshals the value of Context.Interface() eagerly, even for a
@@ -934,9 +1110,15 @@ func TestC08(t *testing.T) {
 		wg.Add(1)
 		go func(i int) {
 			defer wg.Done()
-			runRig(r, tot, i, rounds)
+			runRig(r, tot, i, rounds, false)
 		}(i)
 	}
+	// fault phase (one rig: the fault point of the storage hook is process-wide)
+	wg.Add(1)
+	go func() {
+		defer wg.Done()
+		runRig(r, tot, 1000, r.N(40, 400), true)
+	}()
 	wg.Wait()
 
 	tot.mu.Lock()
